@@ -65,6 +65,8 @@ func dispatch(rp replayFile, verbose bool) bool {
 		replayLeak50(rp.Input)
 	case "gaps":
 		replayGaps(rp.Input)
+	case "flicker":
+		replayFlicker(rp.Input)
 	case "syncsteps":
 		replaySyncSteps(rp.Input)
 	case "staleopen":
@@ -139,6 +141,7 @@ func main() {
 	sectionRecycle29(rng.Fork("recycle29"))
 	sectionStale41()
 	sectionStaleOpen()
+	sectionFlicker()
 	sectionSyncSteps(rng.Fork("syncsteps"))
 	sectionLeak50()
 	<-unitDone
